@@ -37,8 +37,9 @@ def dec(x):
     return x
 
 
-def apply_op(obj, name, args, kwargs):
-    """Runs one API call with arguments rebuilt from JSON; returns canonical value."""
+def apply_op(obj, name, args, kwargs, raw=None):
+    """Runs one API call with arguments rebuilt from JSON; returns canonical value.
+    If `raw` is a list, the raw return value is appended to it."""
     a = [dec(v) for v in args]
     k = {kk: dec(v) for kk, v in (kwargs or {}).items()}
     try:
@@ -50,7 +51,36 @@ def apply_op(obj, name, args, kwargs):
             v = getattr(obj, name)(*a, **k)
     except Exception as e:
         return {"exc": type(e).__name__}
+    if raw is not None:
+        raw.append(v)
     return canon(v)
+
+
+def scribble(v):
+    """what a careless caller may do with a container it was handed: edit it in place.
+    Returns True if something was changed."""
+    try:
+        import numpy as np
+    except Exception:  # pragma: no cover
+        np = None
+    if isinstance(v, list):
+        if v:
+            v.reverse()
+        v.append(999999)
+        return True
+    if isinstance(v, dict):
+        for key in list(v)[:3]:
+            v[key] = "scribbled"
+        v["scribbled"] = 1
+        return True
+    if np is not None and isinstance(v, np.ndarray):
+        if v.size and v.flags.writeable:
+            v.fill(7)
+            return True
+        return False
+    if isinstance(v, tuple):
+        return any([scribble(x) for x in v])
+    return False
 
 
 def _write_all(fd, data):
